@@ -101,6 +101,30 @@ def generate(repo, out):
     heap_flag, heap_limit = m.group(1), const_expr(m.group(2), "heap limit")
     if not re.search(r"let dialect = ChiaDialect::new\(flags\);", run) or not re.search(r"run_program\(&mut allocator, &dialect, program, args, max_cost\)", run):
         raise TranslateError("api.rs: run_program call changed shape")
+    # clvm_tree_to_lazy_node: memo keyed by address, BuildPair carries addresses only; the repaired
+    # code additionally keeps every visited object alive in a vector declared before the loop
+    conv = region(api, r"fn clvm_tree_to_lazy_node\(obj: Bound<'_, PyAny>\) -> PyResult<LazyNode> \{", r"\n}\n", "clvm_tree_to_lazy_node")
+    for pat, what in [
+        (r"let mut identity_map: HashMap<usize, NodePtr> = HashMap::new\(\);", "identity map"),
+        (r"Visit\(Bound<'py, PyAny>\),\s+BuildPair \{\s+id: usize,\s+left_id: usize,\s+right_id: usize,\s+\},", "work items"),
+        (r"let id = pyobj\.as_ptr\(\) as usize;\s+if identity_map\.contains_key\(&id\) \{\s+continue;\s+\}", "memo check"),
+        (r"if !right_done \{\s+stack\.push\(WorkItem::Visit\(right\)\);\s+\}\s+if !left_done \{\s+stack\.push\(WorkItem::Visit\(left\)\);\s+\}", "child pushes"),
+        (r"let root = identity_map\[&root_ptr\];", "root lookup"),
+    ]:
+        if not re.search(pat, conv):
+            raise TranslateError("api.rs: clvm_tree_to_lazy_node changed shape (%s)" % what)
+    ka_decl = re.search(r"let mut (\w+): Vec<Bound<'_, PyAny>> = Vec::new\(\);(?=[\s\S]*while let Some\(item\) = stack\.pop\(\))", conv)
+    if ka_decl:
+        name = ka_decl.group(1)
+        if not re.search(r"if identity_map\.contains_key\(&id\) \{\s+continue;\s+\}\s+%s\.push\(pyobj\.clone\(\)\);" % name, conv):
+            raise TranslateError("api.rs: a keep-alive vector is declared but visited objects are not pushed right after the memo check")
+        if len(re.findall(r"\b%s\b" % name, conv)) != 2:
+            raise TranslateError("api.rs: the keep-alive vector is used in an unrecognised way")
+        keepalive = "true"
+    else:
+        if re.search(r"keep_?alive", conv, re.I):
+            raise TranslateError("api.rs: unrecognised keep-alive construct")
+        keepalive = "false"
     m = re.search(r"const PY_DEFAULT_MAX_ATOM_LEN: usize = ([0-9 <]+);", api)
     if not m:
         raise TranslateError("api.rs: PY_DEFAULT_MAX_ATOM_LEN not found")
@@ -175,13 +199,15 @@ Definition api_src_default_heap_limit : N := %d.
 Definition api_src_all_flag_bits : N := %d.
 Definition api_src_flag_bits : list N := %s.
 Definition api_src_default_max_atom_len : N := %d.
+(* clvm_tree_to_lazy_node keeps every visited object alive until it returns *)
+Definition api_src_keepalive : bool := %s.
 Definition api_src_magic_prefix : list N := %s.
 Definition py_src_magic_prefix : list N := %s.
 """ % (max_single, cons_marker,
        nlist(ths), nlist(tags), py_max, limit_s, bc_add, bc_div, nlist(strip),
        nlist(kw["NULL"]), nlist(kw["ONE"]), nlist(kw["Q_KW"]), nlist(kw["A_KW"]), nlist(kw["C_KW"]), nlist(cone),
        nlist(pybytes(ma.group(1), "atom prefix")), nlist(pybytes(mp.group(1), "pair prefix")),
-       bitd[heap_flag], heap_flag, heap_limit, default_heap, allbits, nlist(sorted(bitd.values())), max_atom,
+       bitd[heap_flag], heap_flag, heap_limit, default_heap, allbits, nlist(sorted(bitd.values())), max_atom, keepalive,
        nlist(magic), nlist(py_magic))
     p = os.path.join(out, "PyConsts.v")
     if not os.path.exists(p) or open(p).read() != txt:
